@@ -79,6 +79,11 @@ pub struct Op {
     /// report the descriptor table before/after this op
     #[serde(default, skip_serializing_if = "std::ops::Not::not")]
     pub fdtable: bool,
+    /// which flavour of the Rust API performs the operation: None = RootRef (borrowed) with with_resolver_flags; "owned" = the
+    /// Root's own methods after set_resolver_flags; "clone" = RootRef::try_clone() of the flagged reference, then the clone's own
+    /// methods; "clone2" = Root::try_clone() of the flagged Root
+    #[serde(default, skip_serializing_if = "Option::is_none")]
+    pub via: Option<String>,
 }
 
 #[derive(Serialize, Deserialize, Clone, Debug, Default, PartialEq, Eq)]
